@@ -55,6 +55,15 @@ def mutate(rng, f):
     return f.replace(',', ',,', 1) if ',' in f else f + '+'
 
 
+def nl_variants(f, rng=None, k=None):
+    """the formula with one line break inserted at a token boundary (all boundaries, or k random ones)"""
+    toks = tokens_of(f[1:])
+    idx = [i for i in range(1, len(toks)) if not (toks[i] == '(' and re.match(r'[A-Za-z]', toks[i - 1]))]
+    if k is not None and rng is not None and len(idx) > k:
+        idx = rng.sample(idx, k)
+    return ['=' + ''.join(toks[:i]) + '\n' + ''.join(toks[i:]) for i in idx]
+
+
 def ws_variant(rng, f):
     toks = tokens_of(f[1:])
     out = []
@@ -155,16 +164,23 @@ def make_case(rc):
     term, sig, fail = analyse(f)
     if fail is None and sig[0] == 'parsed':
         fail = lexer_cover(f)
+    if fail is None and rc.get('nl_of'):
+        # a line break between tokens: Excel accepts it as whitespace; the translator may reject the formula (a recorded limitation of the
+        # lexer), but when it accepts it the result must be that of the one-line formula
+        _, bsig, _ = analyse(rc['nl_of'])
+        if sig[0] == 'parsed' and sig != bsig:
+            fail = 'the formula with a line break is accepted but read differently from %r: %r vs %r' % (rc['nl_of'], sig[1:], bsig[1:])
     if fail is None and rc.get('same_as'):
         _, bsig, _ = analyse(rc['same_as'])
         if bsig[0] == 'parsed' and sig != bsig:
             fail = 'whitespace / separator variant of %r is treated differently: %r vs %r' % (rc['same_as'], sig[:1], bsig[:1])
     coq = 'CF %s %s %s' % (C.cstr(f), term, C.cbool(fail is None))
-    return {'recipe': rc, 'coq': coq, 'key': f, 'nontrivial': bool(rc.get('mutated') or rc.get('same_as')), 'oracle_fail': fail}
+    nl_rejected = bool(rc.get('nl_of')) and sig[0] != 'parsed' and analyse(rc['nl_of'])[1][0] == 'parsed'
+    return {'nl_rejected': nl_rejected, 'recipe': rc, 'coq': coq, 'key': f, 'nontrivial': bool(rc.get('mutated') or rc.get('same_as') or rc.get('nl_of')), 'oracle_fail': fail}
 
 
 def printable(f):
-    return all(32 <= ord(c) < 127 or c == '\t' for c in f)
+    return all(32 <= ord(c) < 127 or c in '\t\n' for c in f)
 
 
 def run(R, tier):
@@ -188,6 +204,8 @@ def run(R, tier):
         recipes.append({'formula': v, 'same_as': f})
         if ',' in f or ';' in f:
             recipes.append({'formula': f.replace(',', ';') if ',' in f else f.replace(';', ','), 'same_as': f})
+        for v in nl_variants(f, R.rng, 2 if tier == 'quick' else 8):
+            recipes.append({'formula': v, 'nl_of': f})
     cases = []
     for rc in recipes:
         try:
@@ -201,7 +219,21 @@ def run(R, tier):
         k = c['coq'].split(' ')[2 if False else -2] if False else ('parsed' if 'IParsed' in c['coq'] else 'rejected' if 'IRejected' in c['coq'] else 'lexexc' if 'ILexExc' in c['coq'] else 'foreign')
         outcomes[k] = outcomes.get(k, 0) + 1
     R.extra['outcome_distribution'] = outcomes
-    C.correspond(R, HEADER, 'report', cases, 'c05', 'Lexer.parse / RegexpBaseToken.get / CompositeBaseToken.get / AstBuilder.parse', shard=60, timeout=900)
+    n_nl = sum(1 for c in cases if c.get('nl_rejected'))
+    if n_nl:
+        R.known('line_break_between_tokens_rejected', n_nl)
+    def search(drifting):
+        """the correspondence broke: every base formula with a line break at every token boundary, and blank-separated variants"""
+        out = []
+        for f in BASE:
+            for v in nl_variants(f):
+                try:
+                    out.append(make_case({'formula': v, 'nl_of': f}))
+                except Timeout:
+                    pass
+        return out
+    C.correspond(R, HEADER, 'report', cases, 'c05', 'Lexer.parse / RegexpBaseToken.get / CompositeBaseToken.get / AstBuilder.parse', shard=60, timeout=900,
+                 search=search)
     R.assumptions += ['printable ASCII formulas; the regex engine Base/Regex.v runs the source regex strings (validated against Python re separately)',
                       'parse time is exponential in nesting depth: formulas are kept shallow and each implementation call runs under a 20 s alarm']
 
